@@ -338,6 +338,24 @@ theorem tmeasure_step {t t' : TSys} (l : TLabel) (hs : tstep t l = some t') :
 
 /-! ### no deadlock -/
 
+theorem first_sender {l : List (Nat × Nat)} {i : Nat} (h : l.any (fun e => e.1 == i) = true) :
+    ∃ k σ, l[k]? = some (i, σ) ∧ (l.take k).any (fun e => e.1 == i) = false := by
+  induction l with
+  | nil => simp at h
+  | cons a t ih =>
+    by_cases ha : a.1 = i
+    · exact ⟨0, a.2, by simp [← ha], by simp⟩
+    · have ht : t.any (fun e => e.1 == i) = true := by
+        simp only [List.any_cons, Bool.or_eq_true] at h
+        rcases h with h | h
+        · simp at h; exact absurd h ha
+        · exact h
+      obtain ⟨k, σ, h1, h2⟩ := ih ht
+      refine ⟨k + 1, σ, by simpa using h1, ?_⟩
+      simp only [List.take_succ_cons, List.any_cons, h2, Bool.or_false]
+      simpa using ha
+
+
 theorem tnot_stuck {t : TSys} (h : TInv t) (hout : t.out = none) : ∃ l t', tstep t l = some t' := by
   have hI := h.inv
   cases hpc : t.sys.pc with
@@ -365,12 +383,9 @@ theorem tnot_stuck {t : TSys} (h : TInv t) (hout : t.out = none) : ∃ l t', tst
       split <;> exact ⟨_, rfl⟩
     · rcases hor with hal | hch'
       · by_cases hb : c.state = .running 0 c.state.fin ∧ t.senders.any (fun e => e.1 == i) = true
-        · obtain ⟨e, he, hei⟩ := List.any_eq_true.mp hb.2
-          obtain ⟨k, hk⟩ := List.getElem?_of_mem he
+        · obtain ⟨k, σ, hk, hfirst⟩ := first_sender hb.2
           refine ⟨.send k, ?_⟩
-          obtain ⟨a, σ⟩ := e
-          simp at hei; subst hei
-          simp only [tstep, tsendStep, hk, hc, hal, if_true]
+          simp only [tstep, tsendStep, hk, hc, hal, hfirst, Bool.not_false, Bool.and_self, if_true]
           exact ⟨_, rfl⟩
         · obtain ⟨s', hs'⟩ := child_alive_enabled hc hal
           refine ⟨.child i, ?_⟩
